@@ -10,16 +10,30 @@ import random
 from harness import common as C
 
 SX = C.to_sx
-# 1 (default): model and oracle follow the repaired code (fix-F1..F4); 0: the code before the repairs
+# 1 (default): model and oracle follow the current code, which contains fix commits 4719ff8 (F1), 394565c (F2), 784517a (F3), 8fb8446 (F4); 0: the code before them (record)
 FIXED = int(os.environ.get("VERIF_C05_FIXED", "1"))
 os.environ["VERIF_C05_FIXED"] = str(FIXED)      # the OCaml driver reads it
-# 0 (default): the code without fix-F5 (a name ending in a non-ASCII blank is finding C05-F5); 1: repaired code
+# 1 (default): the current code, which contains fix commit 4b4f5c6 (C05-F5); 0: the code before it, where a name ending
+# in a non-ASCII blank did not survive MediaWiki (record)
 FIXED5 = int(os.environ.get("VERIF_C05_FIXED_F5", "1"))
 os.environ["VERIF_C05_FIXED_F5"] = str(FIXED5)
 
-# 0 (default): the code without fix-F7 (a library node rooted in a tree that does not allow extensions is listed behind
-# the tree: finding C05-F7); 1: repaired code
+# 1 (default): the current code, which contains fix commit f2636f2 (C05-F7); 0: the code before it (a library
+# node rooted in a tree that does not allow extensions was listed behind the tree; record)
 FIXED7 = int(os.environ.get("VERIF_C05_FIXED_F7", "1"))   # fix commit f2636f2 is in /repo
+
+# 0 (default): the current code (a TSV location named *.TSV cannot be loaded back: finding C05-F8); 1: with the proposed fix-F8
+FIXED8 = int(os.environ.get("VERIF_C05_FIXED_F8", "1"))   # fix commit b5f4533 is in /repo
+os.environ["VERIF_C05_FIXED_F8"] = str(FIXED8)
+
+# Whole-cell texts that CSV / pandas machinery may take for a missing value or a special literal: an input dimension
+# for descriptions, names and attribute values in every format
+CELL_SPECIAL = ["n/a", "N/A", "NA", "na", "nan", "NaN", "-nan", "None", "none", "null", "NULL", "Null", "#N/A", "#NA",
+                "<NA>", "N.A.", "-1.#IND", "1.#QNAN", "true", "True", "false", "1.0", "0", "-", "inf", "-inf"]
+# Names of TSV save locations (the last path component): folders with dots, the .tsv form, suffix case, blanks
+LOC_NAMES = ["sch", "HED8.3.0", "HED_score_2.0.0", "a.b.c", "v1.2", "trailing.", ".hidden", "sp ace", "\u00fcn\u00ef.1",
+             "x.tsv", "y.v1.tsv", "tsv", "x.tsv.d", "Tsv.dir"]
+LOC_NAMES_UPPER = ["x.TSV", "y.Tsv", "z.v2.TSV"]          # finding C05-F8 unless VERIF_C05_FIXED_F8=1
 
 # One representative of every kind of non-ASCII code point of the schema text class ("printable ASCII except
 # , [ ] { } plus every code point above 127") that some API treats specially.  Below 128 nothing else is in the
@@ -253,6 +267,38 @@ def impl_tsv_write(strip, name, attrs, desc):
     w._write_tag_entry(StubEntry(name, attrs, desc), None, 1)
     r = w._tag_rows[0]
     return [r[k.hed_id], r[k.name], r[k.attributes], r[k.description]]
+
+
+def impl_tsv_cells(texts, scratch):
+    """The real save_dataframes / load_dataframes on a tag table whose description cells are `texts` (None = no value):
+    the description cells read back."""
+    import pandas as pd
+    import hed.schema.hed_schema_df_constants as k
+    from hed.schema.schema_io.df_util import save_dataframes, load_dataframes, create_empty_dataframes
+    dfs = create_empty_dataframes()
+    rows = [{k.hed_id: "", k.level: "0", k.name: "N%d" % i, k.subclass_of: "HedTag", k.attributes: "",
+             k.description: t, k.equivalent_to: ""} for i, t in enumerate(texts)]
+    dfs[k.TAG_KEY] = pd.DataFrame(rows, columns=k.tag_columns, dtype=str)
+    base = os.path.join(scratch, "cells", "sch")
+    save_dataframes(base, dfs)
+    back = load_dataframes(base)[k.TAG_KEY]
+    return [None if (v is None or v != v or v == "") else v for v in back[k.description]]
+
+
+def impl_tsv_location(parent, name, scratch):
+    """(files the real writer creates for the location, files the real reader will look for), relative to scratch."""
+    from hed.schema.schema_io.df_util import save_dataframes, convert_filenames_to_dict, create_empty_dataframes
+    root = os.path.join(scratch, "loc%d" % impl_tsv_location.n)
+    impl_tsv_location.n += 1
+    path = os.path.join(root, *parent, name)
+    os.makedirs(os.path.join(root, *parent), exist_ok=True)
+    save_dataframes(path, create_empty_dataframes())
+    written = sorted(os.path.relpath(os.path.join(dp, f), root) for dp, _, fs in os.walk(root) for f in fs)
+    wanted = sorted(os.path.relpath(f, root) for f in convert_filenames_to_dict(path).values())
+    return written, wanted
+
+
+impl_tsv_location.n = 0
 
 
 def impl_open_file_lines(text, path=None):
